@@ -16,13 +16,10 @@ def mcost (s : IState) : Nat := Memory.currentExpansionCost s.mem
 /-- the termination measure: gas left plus the memory cost already paid for -/
 def measure (s : IState) : Nat := s.gas.remaining + mcost s
 
-/-- everything a handler preserves, relative to the state `s0` it started from (after the opcode fetch).
+/-- the resources a handler keeps in order, relative to the state `s0` it started from (after the opcode fetch).
 Indices: `k` gas certainly consumed so far; `st` "`measure < u64::MAX` is known"; `ne` "the stack is known to be
 non-empty" (a `pop_top!` reference is live); `L` a lower bound on the length of the memory context. -/
-structure Core (k : Nat) (st ne : Bool) (L : Nat) (s0 s : IState) : Prop where
-  code : s.code = s0.code
-  origLen : s.origLen = s0.origLen
-  jt : s.jumpTable = s0.jumpTable
+structure Res (k : Nat) (st ne : Bool) (L : Nat) (s0 s : IState) : Prop where
   isEof : s.isEof = s0.isEof
   isEofInit : s.isEofInit = s0.isEofInit
   spec : s.spec = s0.spec
@@ -44,41 +41,56 @@ structure Core (k : Nat) (st ne : Bool) (L : Nat) (s0 s : IState) : Prop where
   safe : measure s < U64 - 1 ∨ s.stack = []
   nonempty : ne = true → s.stack ≠ []
 
+/-- `Res` plus "the running code, the jump table and the EOF context are the ones of `s0`" (everything except the
+EOF function calls CALLF / RETF / JUMPF) -/
+structure Core (k : Nat) (st ne : Bool) (L : Nat) (s0 s : IState) : Prop extends Res k st ne L s0 s where
+  code : s.code = s0.code
+  origLen : s.origLen = s0.origLen
+  jt : s.jumpTable = s0.jumpTable
+  eofc : s.eof = s0.eof
+
 /-- `Core` plus "the instruction pointer has not moved" -/
 structure Rel (k : Nat) (st ne : Bool) (L : Nat) (s0 s : IState) : Prop extends Core k st ne L s0 s where
   pc : s.pc = s0.pc
 
 /-- what holds of every state in which a handler stops the frame -/
-abbrev Halt (s0 s : IState) : Prop := Core 0 false false 0 s0 s
+abbrev Halt (s0 s : IState) : Prop := Res 0 false false 0 s0 s
 
-theorem Core.weaken {k st ne L s0 s} (h : Core k st ne L s0 s) {k' : Nat} {st' ne' : Bool} {L' : Nat}
+theorem Res.weaken {k st ne L s0 s} (h : Res k st ne L s0 s) {k' : Nat} {st' ne' : Bool} {L' : Nat}
     (hk : k' ≤ k) (hst : st' = true → st = true) (hne : ne' = true → ne = true) (hL : L' ≤ L) :
-    Core k' st' ne' L' s0 s :=
+    Res k' st' ne' L' s0 s :=
   { h with
     memL := Nat.le_trans hL h.memL
     meas := by have := h.meas; omega
     strict := fun e => h.strict (hst e)
     nonempty := fun e => h.nonempty (hne e) }
 
-theorem Core.toHalt {k st ne L s0 s} (h : Core k st ne L s0 s) : Halt s0 s :=
+theorem Core.weaken {k st ne L s0 s} (h : Core k st ne L s0 s) {k' : Nat} {st' ne' : Bool} {L' : Nat}
+    (hk : k' ≤ k) (hst : st' = true → st = true) (hne : ne' = true → ne = true) (hL : L' ≤ L) :
+    Core k' st' ne' L' s0 s :=
+  { toRes := h.toRes.weaken hk hst hne hL, code := h.code, origLen := h.origLen, jt := h.jt, eofc := h.eofc }
+
+theorem Res.toHalt {k st ne L s0 s} (h : Res k st ne L s0 s) : Halt s0 s :=
   h.weaken (Nat.zero_le _) (fun e => by cases e) (fun e => by cases e) (Nat.zero_le _)
+
+theorem Core.toHalt {k st ne L s0 s} (h : Core k st ne L s0 s) : Halt s0 s := h.toRes.toHalt
 
 theorem Rel.weaken {k st ne L s0 s} (h : Rel k st ne L s0 s) {k' : Nat} {st' ne' : Bool} {L' : Nat}
     (hk : k' ≤ k) (hst : st' = true → st = true) (hne : ne' = true → ne = true) (hL : L' ≤ L) :
     Rel k' st' ne' L' s0 s :=
   { toCore := h.toCore.weaken hk hst hne hL, pc := h.pc }
 
-theorem Core.remLt {k st ne L s0 s} (h : Core k st ne L s0 s) : s.gas.remaining < U64 := by
+theorem Res.remLt {k st ne L s0 s} (h : Res k st ne L s0 s) : s.gas.remaining < U64 := by
   have h1 := h.meas; have h2 := h.m0
   have hU := U64_val
   unfold measure at h1 h2; omega
 
 /-- a handler that has consumed gas knows `measure < u64::MAX` -/
-theorem Core.strictOfK {k st ne L s0 s} (h : Core k st ne L s0 s) (hk : 1 ≤ k) : measure s < U64 - 1 := by
+theorem Res.strictOfK {k st ne L s0 s} (h : Res k st ne L s0 s) (hk : 1 ≤ k) : measure s < U64 - 1 := by
   have h1 := h.meas; have h2 := h.m0; omega
 
 theorem Rel.mkStrict {k st ne L s0 s} (h : Rel k st ne L s0 s) (hk : 1 ≤ k) : Rel k true ne L s0 s :=
-  { h with strict := fun _ => h.toCore.strictOfK hk }
+  { h with strict := fun _ => h.toRes.strictOfK hk }
 
 /-! ## post-conditions -/
 
@@ -156,7 +168,7 @@ theorem requireSome_sat (h : Rel k st ne L s0 s) (r : HostResp) :
 
 theorem gasCharge_sat (h : Rel k st ne L s0 s) (c : Nat) :
     Exec.Sat (gasCharge c s) (Halt s0) (fun _ s' => Rel (k + c) (st || decide (1 ≤ c)) ne L s0 s') := by
-  have hr := h.toCore.remLt
+  have hr := h.toRes.remLt
   unfold gasCharge
   simp only []
   by_cases hc : c ≤ s.gas.remaining
